@@ -16,6 +16,7 @@ package crypto
 
 import (
 	"crypto"
+	"crypto/elliptic"
 
 	"github.com/lestrrat-go/jwx/v2/jwk"
 )
@@ -67,6 +68,19 @@ func Decrypt(ciphertext []byte, algorithm string, key jwk.Key, nonce []byte, tag
 	default:
 		return nil, ErrUnsupportedAlgorithm
 	}
+}
+
+// getECDSACurve returns the curve that is used with the given ECDSA signature algorithm (RFC 7518, section 3.4).
+func getECDSACurve(alg string) elliptic.Curve {
+	switch alg {
+	case Algorithm_ES256:
+		return elliptic.P256()
+	case Algorithm_ES384:
+		return elliptic.P384()
+	case Algorithm_ES512:
+		return elliptic.P521()
+	}
+	return nil
 }
 
 func getSHAHash(alg string) crypto.Hash {
